@@ -72,14 +72,8 @@ func specVerify(evs []absEvent, sigOK bool, counterOK bool, accEventHash []byte)
 // the E values; indices and parent hashes of later events are recomputed by the receiver.
 func transportView(evs []absEvent, transport string) []absEvent {
 	r := make([]absEvent, len(evs))
-	if transport == "json" && len(evs) > 0 {
-		// the JSON form of a hash is read back with "read one multihash from the front": bytes
-		// after a complete multihash are dropped (single-byte varints suffice for our cases)
-		p := evs[0].Parent
-		if len(p) >= 2 && p[0] < 0x80 && p[1] < 0x80 && len(p) >= 2+int(p[1]) {
-			evs = append([]absEvent{{evs[0].Index, evs[0].E, p[:2+int(p[1])]}}, evs[1:]...)
-		}
-	}
+	// (the JSON form of a hash is read back whole: bytes after a complete multihash make the message
+	// undecodable since 8fec1c6 - the extended hash stays in the view, where it is malformed)
 	for i, e := range evs {
 		r[i] = absEvent{Index: evs[0].Index + uint64(i), E: e.E, Parent: e.Parent}
 		if i > 0 {
@@ -694,6 +688,18 @@ func genC10(g *Rng, tier string, emit func(Op)) {
 							"events": te(evs), "prepend": te(pre), "wire": wire,
 							"sacc":      map[string]any{"nu": av.Nu.Text(16), "index": hxi(int64(av.Index)), "time": hxi(av.Time), "eventhash": hb(av.EventHash), "pk": int(kp.pk.Counter), "sigok": true},
 							"saccbytes": map[string]any{"data": hb(c.signed[n]), "pk": int(kp.pk.Counter)}})
+						// the same list re-indexed far beyond the update (its last index = the update's first
+						// index + 2^63 - 1, where a difference of indices no longer fits a signed word)
+						if wire == "" && len(evs) > 0 {
+							far := cloneEvs(pre)
+							shift := evs[0].Index + (uint64(1) << 63) - 1 - far[len(far)-1].Index
+							for i := range far {
+								far[i].Index += shift
+							}
+							emit(Op{"op": "update-prepend", "class": "prepend-reindexed-far", "label": "err", "nomodel": true, "fkey": "C10/prepend-reindexed-far", "key": kp.id,
+								"events": te(evs), "prepend": te(far), "wire": wire,
+								"saccbytes": map[string]any{"data": hb(c.signed[n]), "pk": int(kp.pk.Counter)}})
+						}
 					}
 				}
 			}
